@@ -75,6 +75,40 @@ theorem C19_stamp_switch (s0 : St) (progs : Nat → List Op) (evs : List Ev)
   intro a ha
   exact Nat.le_trans (hord.2.2 a ha e (by simp)) hst.1
 
+/-- **C19_stamp_clear.** The same for ClearActiveMode / ChangeToNormalMode: when the operation performed last
+is a clear, `nm` is the (unique) normal mode and another mode was active, then `nm` is active and its start time
+is a clock reading taken inside the lock, after every earlier operation had completed and not after the switch. -/
+theorem C19_stamp_clear (p : Mode) (s0 : St) (h0 : Inv p s0) (progs : Nat → List Op) (evs : List Ev)
+    (l : List Entry) (e : Entry) (n : Nat) (nm : Mode)
+    (hlog : (trun (tinit s0 progs) evs).log = l ++ [e])
+    (hop : e.op = .clear n ∨ e.op = .sClear n)
+    (hm : nm ∈ (run s0 (l.map Entry.op)).modes) (hnn : nm.normal = true)
+    (hne : (run s0 (l.map Entry.op)).active.id ≠ nm.id) :
+    let c := trun (tinit s0 progs) evs
+    c.st.active.id = nm.id ∧ c.st.active.start = some n ∧
+    e.lockAt ≤ n ∧ n ≤ e.writeAt ∧ e.writeAt ≤ c.clock ∧ ∀ a ∈ l, a.writeAt ≤ n := by
+  have hi := trun_inv (tinv_init s0 progs) evs
+  have he : e ∈ (trun (tinit s0 progs) evs).log := by rw [hlog]; simp
+  have hnow : e.op.now? = some n := by
+    rcases hop with h | h <;> rw [h] <;> rfl
+  have hst := hi.stamps e he n hnow
+  have hinv : Inv p (run s0 (l.map Entry.op)) := run_inv h0 _
+  have hcl := C19_clear p _ hinv n
+  have hserial : (trun (tinit s0 progs) evs).st = (step (run s0 (l.map Entry.op)) (.clear n)).1 := by
+    rw [hi.serial, hlog, List.map_append, run_append]
+    rcases hop with h | h
+    · simp only [List.map_cons, List.map_nil, run, h]
+    · simp only [List.map_cons, List.map_nil, run, h]
+      rw [hcl.1]
+  have hstep := hcl.2.2 nm hm hnn
+  have hord := hi.ord
+  rw [hlog, List.pairwise_append] at hord
+  refine ⟨?_, ?_, hst.1, hst.2, (hi.past e he).2, ?_⟩
+  · rw [hserial, hstep]; simp [stamped, hne]
+  · rw [hserial, hstep]; simp [stamped, hne]
+  · intro a ha
+    exact Nat.le_trans (hord.2.2 a ha e (by simp)) hst.1
+
 /-- **C19_rejected_unchanged.** An operation that does not report success (an error status or a contract
 panic) leaves ALL of the model's state exactly as it was — modes, active mode, and with them everything
 derived from them (the normal mode is recomputed from the mode list, nothing is remembered on the side) — and
